@@ -32,6 +32,7 @@ verus! {
 
 //%include spec/model.rs
 //%include spec/sem.rs
+//%include spec/lemmas.rs
 //%item solver.rs Cache struct Cache
 //%item solver.rs impl_Cache impl Document for Cache
 //%item solver.rs Passthrough struct Passthrough
